@@ -17,7 +17,7 @@ CHECK = {
         suite("chan", "c09", 400, 6000, stdin=True, args=["-suite", "chan"]),
         # round 8b: the code that builds and publishes a metric (real informers behind a fake IPFSConnector, api.Metric time
         # functions, the real PublishMetric observed on the monitor's own subscription)
-        suite("glue", "c09", 250, 4000, stdin=True, args=["-suite", "glue"]),
+        suite("glue", "c09", 160, 2500, stdin=True, args=["-suite", "glue"]),
     ],
     "lean_sources": ["ClusterVerif/Gen/C09.lean", "ClusterVerif/Model/C09.lean", "ClusterVerif/Model/C09Source.lean", "ClusterVerif/Spec/C09.lean",
                      "ClusterVerif/Lemmas/C09.lean", "ClusterVerif/Lemmas/C09Time.lean",
@@ -46,7 +46,7 @@ CHECK = {
                      "Monitor.PublishMetric is printed, white space removed and matched against a fixed list of shapes (locking, tracing, logging skipped); "
                      "anything else is the token \"?\" which the Lean interpreter refuses; Window.All by its single append shape",
                      "glue suite: `exp=in` (Expire within [call start + TTL, call end + TTL]) is computed by the harness; delivery of a published metric is "
-                     "decided by a later valid marker message on the same topic (a publisher's own messages arrive in order)",
+                     "decided by a later valid marker message on the same topic plus a 400 ms grace period (pubsub validates messages concurrently, the marker may overtake)",
                      "/repo/monitor/pubsubmon/verif_export_c09.go (build tag verif): VerifStore / VerifChecker accessors",
                      "verif_export.go wrappers (VerifNewCluster, VerifPushInformerMetrics, VerifPushPingMetrics) and common.StoreMonitor as recording monitor"],
     "assumptions": ["history / monitor / timed / watch / recv suites and C09_holds: the consumer of Alerts() receives every alert of a check before the next "
